@@ -452,6 +452,9 @@ package cose
 //@   ensures mismatch [C01, C04]: s != nil && payload != nil && len(s.Signature) > 0 && bodyOK(protected) && uniqueLabels(asmap(s.Headers.Protected)) && algIntMismatch(s.Headers.Protected, verifier_alg(verifier))
 //@         ==> result != nil && Is(result, ErrAlgorithmMismatch)
 //@   ensures precheck [C01, C03, C11]: (s == nil || payload == nil || len(s.Signature) == 0 || !bodyOK(protected)) ==> result != nil && vepoch() == old(vepoch())
+//@   ensures complete [C01, C07]: s != nil && payload != nil && len(s.Signature) > 0 && bodyOK(protected) && bstr_wf(bytes(protected)) && old(uniqueLabels(asmap(s.Headers.Protected)))
+//@         && old((algPresent(s.Headers.Protected) ==> algAgrees(s.Headers.Protected, verifier_alg(verifier))) && (algPresent(s.Headers.Protected) || len(external) > 0))
+//@         && old(tbsOK(s.Headers)) ==> vepoch() == old(vepoch()) + 1
 //@   modifies frame [C01, C18]: nothing
 
 //@ func (*Signature).Sign
@@ -469,6 +472,9 @@ package cose
 //@   ensures mismatch [C04]: s != nil && payload != nil && old(len(s.Signature)) == 0 && bodyOK(protected) && old(uniqueLabels(asmap(s.Headers.Protected))) && old(algIntMismatch(s.Headers.Protected, signer_alg(signer)))
 //@         ==> err != nil && Is(err, ErrAlgorithmMismatch) && epoch() == old(epoch())
 //@   ensures precheck [C11, C20]: (s == nil || payload == nil || old(len(s.Signature)) > 0 || !bodyOK(protected)) ==> err != nil && epoch() == old(epoch())
+//@   ensures ok_tbs [C01]: err == nil ==> withold(s.Signature, tbsOK(s.Headers)) && bstr_wf(bytes(protected))
+//@   ensures raw_unchanged [C01]: s != nil && old(s.Headers.RawProtected) != nil ==> s.Headers.Protected == old(s.Headers.Protected)
+//@         && mapdom(asmap(s.Headers.Protected)) == old(mapdom(asmap(s.Headers.Protected))) && mapval(asmap(s.Headers.Protected)) == old(mapval(asmap(s.Headers.Protected)))
 //@   modifies frame [C18]: s.Signature, s.Headers.Protected, mapof(asmap(s.Headers.Protected))
 
 // ===================================================================
@@ -521,8 +527,12 @@ package cose
 //@   ensures iff [C05, C07, C13]: result == nil <==> CrossIV(h.Protected, h.Unprotected)
 //@   modifies frame [C18]: nothing
 
+// the two buckets can be emitted together
+//@ spec hdrsOK(h Headers) Bool = CrossIV(h.Protected, h.Unprotected) && protOK(h) && unprotOK(h)
+
 //@ func (*Headers).marshal
 //@   requires nonnil: h != nil
+//@   ensures err_iff [C01, C07, C08, C09]: result2 == nil <==> old(hdrsOK(*h))
 //@   ensures fun [C08, C09, C13]: result2 == nil ==> bytes(result0) == ProtBytes(*h) && bytes(result1) == UnprotBytes(*h) && len(result0) > 0 && len(result1) > 0
 //@   ensures cross [C13]: result2 == nil ==> CrossIV(h.Protected, h.Unprotected)
 //@   ensures raw_preferred [C09]: result2 == nil ==> (len(h.RawProtected) > 0 ==> result0 == h.RawProtected) && (len(h.RawUnprotected) > 0 ==> result1 == h.RawUnprotected)
@@ -542,15 +552,18 @@ package cose
 //@         && result0.Payload == m.Payload && result0.Signature == m.Signature
 //@   ensures cross [C13]: result1 == nil ==> CrossIV(m.Headers.Protected, m.Headers.Unprotected)
 //@   ensures refuses_empty [C11, C20]: (m == nil || len(m.Signature) == 0) ==> result1 != nil
+//@   ensures err_iff [C01, C07, C08, C09]: result1 == nil <==> (m != nil && len(m.Signature) > 0 && old(hdrsOK(m.Headers)))
 //@   modifies frame [C18]: nothing
 
 //@ func (*Sign1Message).MarshalCBOR
+//@   ensures err_iff [C01, C07, C08, C09]: err == nil <==> (m != nil && len(m.Signature) > 0 && old(hdrsOK(m.Headers)))
 //@   ensures fun [C01, C08, C09]: err == nil ==> m != nil && bytes(result) == enc(cv_tag(18, Sign1Array(m.Headers, m.Payload, m.Signature))) && fresh(result) && len(result) > 0
 //@   ensures refuses_empty [C01, C20]: err == nil ==> m != nil && len(m.Signature) > 0
 //@   ensures err_nil [C01, C20]: err != nil ==> result == nil
 //@   modifies frame [C01, C18]: nothing
 
 //@ func (*UntaggedSign1Message).MarshalCBOR
+//@   ensures err_iff [C01, C07, C08, C09]: err == nil <==> (m != nil && len(m.Signature) > 0 && old(hdrsOK(m.Headers)))
 //@   ensures fun [C01, C08, C09]: err == nil ==> m != nil && bytes(result) == enc(Sign1Array(m.Headers, m.Payload, m.Signature)) && fresh(result) && len(result) > 0
 //@   ensures refuses_empty [C01, C20]: err == nil ==> m != nil && len(m.Signature) > 0
 //@   ensures err_nil [C01, C20]: err != nil ==> result == nil
@@ -1342,4 +1355,13 @@ package cose
 //@         && (algPresent(result0.Headers.Protected) ==> algAgrees(result0.Headers.Protected, verifier_alg(verifier))) && (algPresent(result0.Headers.Protected) || len(external) > 0)
 //@         ==> vepoch() == old(vepoch()) + 1
 //@   ensures counts: epoch() == old(epoch()) && vepoch() >= old(vepoch())
+//@   modifies frame: anything
+
+// re-encoding a received COSE_Sign1: tag 18, then the array of the received protected bytes, the received unprotected
+// bytes, the received payload and the received signature -- nothing is re-serialised from the decoded maps; and the
+// re-encoding never fails
+//@ func lemmaSign1DecodeThenEncode
+//@   ensures reencode [C08, C09]: result0 != nil ==> result1 != nil && len(data) >= 2
+//@         && bytes(result1) == enc(cv_tag(18, arr(cv_raw(dec_elem(bytes(data[1:]), 0)), cv_raw(dec_elem(bytes(data[1:]), 1)),
+//@                 (dec_elem(bytes(data[1:]), 2) == byte1(246) ? cv_null : cv_bstr(bstr_content(dec_elem(bytes(data[1:]), 2)))), cv_bstr(bstr_content(dec_elem(bytes(data[1:]), 3))))))
 //@   modifies frame: anything
